@@ -23,7 +23,8 @@ RULE = ("composed-stack exploration: client A sets a state vector and calls appl
         "optionally an idle period past the 12 h authentication lifetime between two applies; optionally a second writer that changes "
         "the device before A applies its unchanged state again. "
         "Oracle: reference-device state == applied vector; A's and B's public attributes == device state. "
-        "state = (vector, protocol, choice prefix); transition = one choice point answered")
+        "Plus one long session per protocol: > 600 commands (two wraps of the 8-bit message id) from one client pair, device and "
+        "read-back compared in every round. state = (vector, protocol, choice prefix); transition = one choice point answered")
 ASSUMPTIONS = ["unsolicited reports are truthful", "segments of one reply arrive 1 microsecond apart and before the read timeout",
                "V2 has no stream framing in the library: split / coalesced V2 replies are a recorded known finding, every other "
                "violation is reported"]
@@ -63,6 +64,8 @@ def shards(tier):
                 out.append(("deep", b, version, part, 6))
     for c in range(len(al.credentials())):
         out.append(("creds", c, 0))
+    for version in (2, 3):
+        out.append(("long", version, 0))
     return out
 
 
@@ -98,7 +101,9 @@ class Env:
             mode = "separate"
         elif m == 1:
             chunks = [stream]
-            mode = "coalesced" if len(packets) > 1 else "separate"
+            # V2: a segment whose FIRST packet is the reply is decoded (what follows in the segment is dropped), so
+            # "reply + trailing unsolicited frames in one segment" is outside the recorded V2 framing finding
+            mode = "separate" if len(packets) == 1 else ("coalesced" if pre != "none" or version_is_3(self) else "coalesced-tail")
         elif m == 2:
             chunks = [stream[i:i + 1] for i in range(len(stream))]
             mode = "bytewise"
@@ -112,7 +117,7 @@ class Env:
                 bnds.add(pos)
             mode = "separate" if k in bnds else "cut"
         self.modes_used.append(mode)
-        if "b5notif" in (pre, post) and mode != "coalesced":
+        if "b5notif" in (pre, post) and mode not in ("coalesced", "coalesced-tail"):
             # the notification completes in a different segment than the reply
             self.modes_used.append("notif-ahead")
         for i, c in enumerate(chunks):
@@ -129,6 +134,10 @@ class Env:
             return dev.wrap(req.conn, dev.ac.report(0x04, 0x78))
         body = bytes([0xB5, 0x03, 0x10, 0x06, 0x01, 0x01, 0x09, 0x00, 0x01, 0x01, 0x0A, 0x00, 0x01, 0x01, 0xDC])
         return dev.wrap(req.conn, rc.frame_build(body, 0x05))
+
+
+def version_is_3(env) -> bool:
+    return env.version == 3
 
 
 def execute(vec, version, ch: Chooser, cred=3, dev_id=0x0000_A1B2_C3D4_E5F6, cut_step=1):
@@ -305,9 +314,54 @@ def run_creds(st: Stats, tier, cidx):
                     st.ev(("cred", cidx, dev_id, bi, version, tuple(choices)), "faithful" if not prob else "differs", True)
 
 
+def run_long(st: Stats, tier, version):
+    """One process-long session: > 2 wraps of the 8-bit message id on one client pair, every round checked."""
+    model = RefAC({})
+    rig = Rig(version, ac=model)
+    a, b = rig.client(), rig.client()
+    vs = vectors("quick")
+    target = 600 if tier != "thorough" else 1400
+    problems = []
+
+    async def drive():
+        await rig.connect(a)
+        await rig.connect(b)
+        i = 0
+        while len(model.frames) < target and not problems:
+            vec = vs[(i * 37) % len(vs)]
+            dz.apply_to_client(a, vec)
+            await a.apply()
+            await asyncio.sleep(0.05)
+            want = dz.as_device_state(vec)
+            dd = {k: (v, model.state[k]) for k, v in want.items() if model.state[k] != v}
+            if dd:
+                problems.append((i, len(model.frames), f"device state differs from the applied state: {dd}"))
+            if i % 3 == 0:
+                await b.refresh()
+                bd = diff_view(client_view_of(model.state), b)
+                if bd or not b.online:
+                    problems.append((i, len(model.frames), f"fresh client B does not report the device state (online={b.online}): {bd}"))
+            st.ev(("long", version, i), "faithful" if not problems else "differs", True)
+            st.transitions += 1
+            i += 1
+        return i
+
+    try:
+        out = rig.run(drive(), limit=10 ** 7)
+        if out[0] != "ok":
+            problems.append((-1, len(model.frames), f"operation raised: {str(out[1])[:120]}"))
+        for i, n, prob in problems:
+            st.violation(f"v{version} long session: {prob.split(':')[0].split(' (')[0]}", {"long": True, "version": version, "round": i, "commands": n},
+                         "applied == device == read back in every round of a long session", prob)
+    finally:
+        rig.close()
+
+
 def run_shard(shard, tier) -> Stats:
     st = Stats()
-    if shard[0] == "vectors":
+    if shard[0] == "long":
+        run_long(st, tier, shard[1])
+    elif shard[0] == "vectors":
         run_vectors(st, tier, shard[1], shard[2])
     elif shard[0] == "deep":
         run_deep(st, tier, shard[1], shard[2], shard[3], shard[4])
@@ -318,6 +372,10 @@ def run_shard(shard, tier) -> Stats:
 
 
 def replay(case):
+    if case.get("long"):
+        st = Stats()
+        run_long(st, "quick", case["version"])
+        return {"violations": sorted(st.viol_counts)}
     ch = Chooser(case["choices"])
     obs, modes, rej = execute(case["vector"], case["version"], ch, cred=case.get("cred", 3),
                               dev_id=case.get("device_id", 0x0000_A1B2_C3D4_E5F6), cut_step=case.get("cut_step", 1))
